@@ -510,5 +510,7 @@ Proof.
            destruct (fin_clause _ _ r id f' G Eq (eq_trans Mk Hk)) as [K Q];
            cbn [api_fut]; exists f'; split; [exact Hf'|split; [exact K|]];
            simp_proj; rewrite Ep; subst; exact Q ] end].
-  Show.
+  all: try (lazymatch goal with |- InvHist (set_dpc ?s0 (DCu CU2 _ _)) => idtac "HERE"; 
+      match goal with EV : evtab _ _ _ _ _ |- _ => idtac "hasEV" | _ => idtac "noEV" end;
+      match goal with H : ?T |- _ => match T with context [cst_n] => idtac H ":" T end end end).
 Admitted.
